@@ -35,6 +35,9 @@ var cnt8small = []int{0, 1, 1, 2, 3}
 func pick(r *vh.Rand, xs []int) int { return xs[r.Intn(len(xs))] }
 
 func gStr(r *vh.Rand, n int) string {
+	if n >= 100 { // long strings: one letter (cheap to print, see cB)
+		return string(fill(byte('a'+r.Intn(26)), n))
+	}
 	b := make([]byte, n)
 	for i := range b {
 		if r.Chance(1, 8) {
@@ -85,8 +88,13 @@ func gIDs(r *vh.Rand, over bool) []identity.AgentID {
 		return nil
 	}
 	ids := make([]identity.AgentID, n)
+	v0 := byte(r.U64())
 	for i := range ids {
-		ids[i] = gID(r)
+		if n >= 64 { // long lists: blocks of constant identifiers (cheap to print)
+			copy(ids[i][:], fill(v0+byte(i/100), 16))
+		} else {
+			ids[i] = gID(r)
+		}
 	}
 	return ids
 }
@@ -153,7 +161,7 @@ func gBound(r *vh.Rand) (uint8, []byte) {
 
 func gData16(r *vh.Rand, over bool) []byte {
 	if over && r.Chance(1, 2) {
-		return r.Bytes(r.Pick(65536, 65537))
+		return fill(byte(r.U64()), r.Pick(65536, 65537))
 	}
 	switch r.Intn(12) {
 	case 0:
@@ -163,7 +171,7 @@ func gData16(r *vh.Rand, over bool) []byte {
 	case 2:
 		return r.Bytes(r.Pick(255, 256, 257))
 	case 3:
-		return r.Bytes(r.Pick(1471, 1472, 1473))
+		return fill(byte(r.U64()), r.Pick(1471, 1472, 1473))
 	default:
 		return r.Bytes(r.Intn(24))
 	}
@@ -563,6 +571,9 @@ func allKinds() []*kind {
 			if over {
 				n = r.Pick(protocol.MaxPayloadSize+1, protocol.MaxPayloadSize+2)
 			}
+			if n > 512 {
+				return frameMsg{gU8(r), gU8(r), gU64(r), fill(byte(r.U64()), n)}
+			}
 			return frameMsg{gU8(r), gU8(r), gU64(r), r.Bytes(n)}
 		},
 		func(m any) ([]byte, error) {
@@ -777,7 +788,7 @@ func allKinds() []*kind {
 		func(r *vh.Rand, over bool) any {
 			d := gData16(r, false)
 			if r.Chance(1, 10) {
-				d = r.Bytes(r.Pick(65535, 65536, 70000))
+				d = fill(byte(r.U64()), r.Pick(65535, 65536, 70000))
 			}
 			return &protocol.ControlRequest{RequestID: gU64(r), ControlType: gU8(r), TargetAgent: gID(r), Path: gIDs(r, over), Data: d}
 		},
@@ -797,10 +808,10 @@ func allKinds() []*kind {
 		func(r *vh.Rand, over bool) any {
 			d := gData16(r, false)
 			if r.Chance(1, 10) {
-				d = r.Bytes(r.Pick(protocol.MaxPayloadSize-13, protocol.MaxPayloadSize-12))
+				d = fill(byte(r.U64()), r.Pick(protocol.MaxPayloadSize-13, protocol.MaxPayloadSize-12))
 			}
 			if over {
-				d = r.Bytes(r.Pick(protocol.MaxPayloadSize-11, protocol.MaxPayloadSize, 20000))
+				d = fill(byte(r.U64()), r.Pick(protocol.MaxPayloadSize-11, protocol.MaxPayloadSize, 20000))
 			}
 			return &protocol.ControlResponse{RequestID: gU64(r), ControlType: gU8(r), Success: r.Chance(1, 2), Data: d}
 		},
